@@ -637,6 +637,8 @@ def eq(fr, l, r, node):
                 return ACond("eq", l, fr.to_int(rc))
         return I.decide_eq(l.msb_first(len(l.bits)), rc, f"{fr.fi.name}:{getattr(node, 'lineno', 0)}")
     if isinstance(l, ABits):
+        if isinstance(r, (list, tuple)) and l.kind in ("list", "ba", "np", "seq") and all(isinstance(x, (int, bool)) and x in (0, 1) or (isinstance(x, AInt) and x.ext is None and len(x.bits) <= 1) for x in r):
+            r = ABits(fr.to_bitlist(list(r)), "list")
         if isinstance(r, ABits) or isinstance(r, (bytes, bytearray, BitArr)):
             a, b = I.simp_bits(l.items), I.simp_bits(fr.to_bitlist(r))
             if len(a) != len(b):
@@ -670,7 +672,34 @@ def eq(fr, l, r, node):
             return l if r else ACond("not", l)
         return ACond("eqc", l, r)
     if is_abs(l) or is_abs(r):
-        return l is r
+        if l is r:
+            return True
+        if l is None or r is None or isinstance(l, (str, EnumMember, ClassRef, FuncRef)) or isinstance(r, (str, EnumMember, ClassRef, FuncRef)):
+            return False   # an abstract number / buffer / object is never None, a text, an enumeration member or a class
+        for a_, b_ in ((l, r), (r, l)):
+            if isinstance(a_, AObj):
+                m_ = I.repo.find_method(a_.cls, "__eq__")
+                if m_ is not None:
+                    return I.call(m_, [a_, b_], {}, a_.cls)
+        if isinstance(l, AObj) or isinstance(r, AObj):
+            return False   # objects whose class defines no __eq__ compare by identity
+        raise Abort(f"equality of {type(l).__name__} and {type(r).__name__} is not modelled at {fr.fi.module.relpath}:{getattr(node, 'lineno', 0)}")
+    if isinstance(l, (list, tuple)) and isinstance(r, (list, tuple)) and (deep_abs(l) or deep_abs(r)):
+        # sequences holding abstract values: equal iff of one type and length and equal element by element (each element decided
+        # in turn — python's == on the containers would compare the abstract objects by identity)
+        if isinstance(l, list) != isinstance(r, list) or len(l) != len(r):
+            return False
+        for a, b in zip(l, r):
+            e = eq(fr, a, b, node)
+            if e is True:
+                continue
+            if e is False:
+                return False
+            if not I.decide(e, f"{fr.fi.name}:{getattr(node, 'lineno', 0)}:element"):
+                return False
+        return True
+    if deep_abs(l) or deep_abs(r):
+        raise Abort(f"equality of containers holding abstract values ({type(l).__name__} == {type(r).__name__}) at {fr.fi.module.relpath}:{getattr(node, 'lineno', 0)}")
     try:
         return l == r
     except Exception:
@@ -1994,7 +2023,12 @@ def bits_method(fr, b: ABits, name, args, kw, n):
             b.items[:] = [x ^ 1 for x in b.items]
         return None
     if name == "reverse":
-        b.items.reverse()
+        if b.kind == "bytes":
+            # bytearray.reverse(): the OCTETS change places, the bits inside each octet keep their order
+            octs = [b.items[i:i + 8] for i in range(0, len(b.items), 8)]
+            b.items[:] = [x for o in reversed(octs) for x in o]
+        else:
+            b.items.reverse()
         return None
     if name == "bytereverse":
         items = b.items
